@@ -10,6 +10,7 @@ from ..ref import wire
 from ..alphabet import peer_caps, simple_update, PEER_ID
 
 PROP = 'C03'
+DEEP_HOLDS = (3, 5, 9, 90, 65535)
 HOLDS = (0, 3, 4, 5, 9, 30, 90, 180, 65535)         # (all three residues modulo 3: 3, 4, 5)
 EPS = 1e-6
 REQ = {'@send': ('POST', '/v1/peer/<ip>/send/update',
@@ -270,7 +271,9 @@ def run(tier, seed):
             H = min(hc, hp)
             tasks.append((hc, hp, 'OPENSENT', [()]))
             for base in ('OPENCONFIRM', 'ESTABLISHED'):
-                sl = schedules(H, depth if H else 2, base, with_send=(base == 'ESTABLISHED'))
+                # (thorough: three steps for the hold pairs over DEEP_HOLDS, two for the others - 81 pairs x 117 k schedules is hours)
+                d_ = depth if (H and (tier == 'quick' or (hc in DEEP_HOLDS and hp in DEEP_HOLDS))) else 2
+                sl = schedules(H, d_, base, with_send=(base == 'ESTABLISHED'))
                 # split for load balance
                 for i in range(0, len(sl), 200):
                     tasks.append((hc, hp, base, sl[i:i + 200]))
@@ -302,7 +305,7 @@ def run(tier, seed):
         'evaluations': leaves, 'distinct_nontrivial': len(classes),
         'states': runs, 'transitions': runs, 'traces_validated_against_impl': leaves,
         'rule': 'every (configured, proposed) hold pair over %s; from OpenSent (silence), OpenConfirm and Established every '
-                'arrival schedule of <= %d steps over gaps {1s, H/3, H-1, H, H+1} x {KEEPALIVE, UPDATE, agent-side REST send (small, 3 kB), malformed request queued by the application} with, '
+                'arrival schedule of <= %d steps (thorough: 3 for the pairs over {3, 5, 9, 90, 65535}, 2 for the others) over gaps {1s, H/3, H-1, H, H+1} x {KEEPALIVE, UPDATE, agent-side REST send (small, 3 kB), malformed request queued by the application} with, '
                 'at a gap landing on a deadline, both the arrival-first and the expiry-first order, and every order of '
                 'same-instant timer expiries; then silence until the session ends. distinct_nontrivial = distinct '
                 '(base state, H>0, ended?, gap-label sequence) classes' % (list(HOLDS), depth),
